@@ -148,6 +148,17 @@ class Engine:
     def check_state(self, ctx: Any) -> None:
         exp = expected_dump(self.w, self.env.renderer_quals)
         got = real_dump(self.real, self.kinds)
+        for h, e in exp.items():
+            td = e.get("table_dict") if isinstance(e, dict) else None
+            if isinstance(td, dict) and "ambiguous" in td:
+                # clash state: every key must be present and map to ONE of the tables that carry it
+                gd = dict((k, v) for k, v in got[h]["table_dict"]) if isinstance(got.get(h, {}).get("table_dict"), list) else None
+                amb = td["ambiguous"]
+                ok = gd is not None and set(gd) == set(amb) and all(gd[k] in amb[k] for k in amb)
+                if not ok:
+                    raise Violation(self.prop, "state", {"after": ctx, "diff": [f"{h}.table_dict: expected every key of "
+                                    f"{amb} mapped to one of its tables, got {got[h].get('table_dict')}"]})
+                e["table_dict"] = got[h]["table_dict"]
         if exp != got:
             d = diff_dumps(exp, got)
             raise Violation(self.prop, "state", {"after": ctx, "diff": d[:12]})
@@ -171,7 +182,7 @@ class Engine:
                 pass
             else:
                 raise Violation(self.prop, "lookup", {"after": ctx, "what": f"{dbh}[{len(tabs)}] did not raise"})
-            keys = w.db_keys(dbh)
+            keys = w.db_key_candidates(dbh)
             for key in sorted(self.keys_ever):
                 want = keys.get(key)
                 try:
@@ -181,8 +192,9 @@ class Engine:
                 if want is None and got is not None:
                     raise Violation(self.prop, "lookup", {"after": ctx, "what": f"{dbh}[{key!r}] answers but no "
                                     "contained table currently has that name or alias"}, "lookup-stale")
-                if want is not None and got is not real[want]:
-                    raise Violation(self.prop, "lookup", {"after": ctx, "what": f"{dbh}[{key!r}] should find {want}",
+                if want is not None and not any(got is real[x] for x in want):
+                    raise Violation(self.prop, "lookup", {"after": ctx, "what": f"{dbh}[{key!r}] should find "
+                                    f"{want[0] if len(want) == 1 else 'one of ' + str(want)}",
                                     "got": "KeyError" if got is None else "another table"}, "lookup-missing")
         for th in w.handles("table"):
             t = real[th]
